@@ -129,3 +129,17 @@ package airgapped
 //@   modifies $ciphers
 //@   assert@call encrypt[C04.db.encrypted] content(key) == content(am.encryptionKey)
 //@   assert@call Put[C04.db.encrypted] (content(arg0) == bytesof("private_key") || content(arg0) == bytesof("public_key")) ==> (content(arg1) in $ciphers)
+
+// The signing step signs exactly the payloads of the common expansion of the proposal's tasks (C03), one partial
+// signature per expanded message, under that message's identifier, for the round named in the operation.
+//@ func (*Machine).handleStateSigningAwaitPartialSigns
+//@   safety C18
+//@   safetykinds nil dereference, index out of range
+//@   requires wfMachine(am) && o != nil
+//@   modifies *
+//@   modifies $handlerErr, $bufc, $ciphers
+//@   epilogue $handlerErr = (result != nil)
+//@   assert@call TasksToMessages[C03.sign.expansion] msgs == loc(signingTasks)
+//@   assert@call createPartialSign[C03.sign.payload] msg == loc(s).Payload && dkgIdentifier == o.DKGIdentifier
+//@   loop 0 invariant len(signs) == $i + 1 && (forall j int :: 0 <= j && j <= $i ==> signs[j].MessageID == $range[j].MessageID)
+//@   loop 0 invariant o.DKGIdentifier == old(o.DKGIdentifier)
